@@ -713,6 +713,37 @@ struct Gen {
       }
       return push_call(c);
     }
+    if (x >= 90) {
+      // block extract / save (two coefficients per block)
+      uint64_t nn = 2 * (uint64_t)r.range(1, 40), blk = r.below(nn / 2);
+      c.p[0] = nn;
+      c.p[1] = blk;
+      switch (r.below(4)) {
+        case 0:
+          c.op = OP_Q120X2_EXTRACT_B;
+          c.s[0] = new_raw(T_U64, 8, false, 0);
+          c.s[1] = new_raw(T_U64, 4 * nn, true, 64);
+          break;
+        case 1:
+          c.op = OP_Q120X2_EXTRACT_C;
+          c.s[0] = new_raw(T_U32, 16, false, 0);
+          c.s[1] = new_raw(T_U32, 8 * nn, true, 32);
+          break;
+        case 2: {
+          uint64_t rows = r.below(5);
+          c.op = OP_Q120X2_EXTRACT_CONTIG;
+          c.p[2] = rows;
+          c.s[0] = new_raw(T_U64, 8 * rows, false, 0);
+          c.s[1] = new_raw(T_U64, 4 * nn * rows, true, 64);
+          break;
+        }
+        default:
+          c.op = OP_Q120X2_SAVE;
+          c.s[0] = new_raw(T_U64, 4 * nn, true, 64);
+          c.s[1] = new_raw(T_U64, 8, true, 64);
+      }
+      return push_call(c);
+    }
     uint64_t nn = r.chance(8, 100) ? 0 : (uint64_t)r.range(1, 70);
     c.p[0] = nn;
     switch (r.below(6)) {
@@ -790,7 +821,23 @@ struct Gen {
 
   bool emit_life_op() {
     Call c;
-    switch (r.below(6)) {
+    uint64_t lk = r.below(8);
+    if (lk == 6) {
+      c.op = OP_LIFE_ALLOC;
+      c.p[0] = r.chance(1, 10) ? 0 : (uint64_t)r.range(1, 5000);
+      static const uint64_t als[] = {0, 0, 16, 32, 64, 128};
+      c.p[1] = als[r.below(6)];
+      if (c.p[1]) c.p[0] = (c.p[0] + c.p[1] - 1) / c.p[1] * c.p[1];  // aligned_alloc wants a multiple of the alignment
+      return push_call(c);
+    }
+    if (lk == 7) {
+      c.op = OP_LIFE_FFT_BUFFERS;
+      c.p[0] = r.below(4);
+      c.p[1] = 1ull << r.range(c.p[0] >= 2 ? 0 : 0, cfg.max_log2n + 2);
+      c.p[2] = r.below(3);
+      return push_call(c);
+    }
+    switch (lk) {
       case 0:
         c.op = OP_LIFE_MODULE;
         c.p[0] = 1ull << r.range(1, cfg.max_log2n + 2);
